@@ -1,7 +1,7 @@
 (* C12 - Gap filling yields a contiguous series of flat, zero-volume candles. *)
 From Coq Require Import ZArith List Bool.
 From Hexital Require Import Base.Prelude Base.Num Model.Manager Model.Candle
-  Proofs.CollapseProofs Proofs.FillProofs Proofs.FillCompose.
+  Proofs.CollapseProofs Proofs.FillProofs Proofs.FillCompose Proofs.PipelineProofs Proofs.FillEngine Proofs.FillHA.
 Import ListNotations.
 Local Open Scope Z_scope.
 
@@ -77,3 +77,15 @@ Theorem C12_schedule_independent :
   mgr_append O (tf_fill_cfg tf) D ys = tasks O (tf_fill_cfg tf) (xs ++ ys).
 Proof. intros O tf xs ys D Htf Hs HD. eapply manager_fill_incremental; eassumption. Qed.
 Print Assumptions C12_schedule_independent.
+
+(* ... and with Heikin-Ashi on top of the filled series: collapse, fill, convert; the stored
+   series is converted, the appended candles are raw (pristine), and the pipeline over
+   (stored series ++ new candles) is the pipeline over the whole raw stream - fill candles
+   are flat at the *raw* close of their predecessor on every schedule *)
+Theorem C12_schedule_independent_with_heikin_ashi :
+  forall (O : NumOps) (tf : Z) (xs ys D : list (cd (payload O))),
+  0 < tf -> sorted (payload O) (xs ++ ys) -> pristine O (xs ++ ys) ->
+  tasks O (tf_fill_ha_cfg tf) xs = Ok D ->
+  mgr_append O (tf_fill_ha_cfg tf) D ys = tasks O (tf_fill_ha_cfg tf) (xs ++ ys).
+Proof. intros O tf xs ys D Htf Hs Hp HD. eapply manager_fill_ha_incremental; eassumption. Qed.
+Print Assumptions C12_schedule_independent_with_heikin_ashi.
